@@ -3,12 +3,14 @@ package main
 import (
 	"crypto/sha256"
 	"encoding/hex"
+	"encoding/json"
 	"fmt"
 	"os"
 	"os/exec"
 	"path/filepath"
 	"sort"
 	"strings"
+	"verif/instrument"
 )
 
 // Harness describes one simulator test binary built inside the repo module through an overlay.
@@ -56,6 +58,19 @@ const zz = "internal/zzverif/"
 var vrfStub = "pkg/Rust-VRF/vrf-func-ffi/src/vrf.go (pure-Go deterministic stand-in injected by overlay; no cryptographic security)"
 
 var harnesses = map[string]*Harness{
+	"h1tel": {
+		PkgDir:   "internal/telemetry",
+		TestName: "TestVerifH1",
+		Files: map[string]string{
+			"internal/telemetry/zz_verif_h1_test.go": "harness/h1tel/zz_verif_h1_test.go",
+		},
+		Instrument: []InstrSpec{
+			{File: "internal/telemetry/tcp.go", Opt: instrument.Options{Yield: true, MinLock: 6, MinSelect: 4, MinGo: 3}},
+			{File: "internal/telemetry/writer.go", Opt: instrument.Options{Yield: true, MinSelect: 1}},
+			{File: "internal/telemetry/sequencer.go", Opt: instrument.Options{Yield: true, MinLock: 4}},
+		},
+		GoMaxProcs: 2,
+	},
 	"h5db": {
 		PkgDir:   zz + "h5db",
 		TestName: "TestVerifH5DB",
@@ -68,24 +83,39 @@ var harnesses = map[string]*Harness{
 
 var checks = []Check{
 	{
+		Property: "C28", Harness: "h1tel", Level: "exploration",
+		Quick:        tierCfg{budget: 60, shrink: 300},
+		Thorough:     tierCfg{budget: 1200, shrink: 3000},
+		RunTimeoutS:  120,
+		Rule:         "one evaluation = one simulated life of the real telemetry client: 1-6 emitter goroutines x 1-40 emit calls (4 flavours, follow-ups with fresh/stale/invalid parents), optional early Close, tape-chosen schedule (one goroutine released at a time at instrumented seams), simulated clock, dialer and connection faults; non-trivial = at least one connection delivered at least one event and >= 4 emit calls were made; distinct = distinct hash of (decision tape, connections, delivered events, steps)",
+		Real:         []string{"internal/telemetry tcpClient: Emit, EmitLazy, EmitFollowup(Lazy), Close, connectLoop, reader goroutine, writeLoop, flushReadyDrops, sequencer, dropState, frame encoders (tcp.go/writer.go/sequencer.go run as AST-instrumented copies of the current tree: yield/lock/go/select seams only)"},
+		Stub:         []string{"net.Conn and dialer = in-memory simulated connection (harness)", "clock = testing/synctest fake clock", "goroutine scheduling = harness scheduler (park/release at seams)"},
+		Assumptions:  []string{"two Close calls are issued sequentially, never concurrently (sync.Once's internal mutex is outside the scheduler)", "the instrumenter inserts scheduling points only at synchronisation operations (mutex, atomics, channel ops, select, go, WaitGroup.Wait, connection calls); plain memory accesses between them execute atomically", "receiver oracle is harness code written from the property text"},
+		LevelText:    "seeded exploration of schedules x clock x connection/dial fault sequences of the real client under a deterministic scheduler, validated by a receiver model (alignment of receiver-assigned ids with returned ids, frame well-formedness, follow-up parents, no phantom/duplicate, emitters never durably blocked); evidence, not proof",
+		LevelNote:    "trusted: the AST instrumenter preserves behaviour (seams are no-ops when detached), testing/synctest's fake clock, the harness' connection model; plain (non-synchronising) memory accesses are not preemption points",
+		Technique:    "deterministic simulation: seeded scheduler over real goroutines (synctest bubble + park/release seams), simulated clock/transport with fault injection, receiver-model oracle, tape shrinking + fresh-process replay",
+		DesignRef:    "DESIGN.md §3.3, §3.4, §4 H1, Appendix B",
+		ExpectProbes: []string{"fault:short_write", "fault:write_error_torn", "fault:write_stall", "fault:dial_error", "fault:dial_hang", "fault:dial_slow", "fault:peer_close", "probe:dropped_record_on_wire", "probe:dropped_range_coalesced", "probe:followup_delivered", "probe:lock_contended", "probe:events_on_two_or_more_connections", "probe:close_during_stalled_write", "probe:dial_cancelled_by_close", "probe:epoch_exhausted_degrade", "probe:trailing_partial_frame"},
+	},
+	{
 		Property: "C27", Harness: "h5db", Level: "exploration",
 		Quick:    tierCfg{budget: 40, shrink: 400},
 		Thorough: tierCfg{budget: 900, shrink: 3000},
-		Rule: "one evaluation = one tape-generated operation history (puts, deletes, gets, batches committed/discarded/abandoned, iterators with prefix/start pairs, caller-buffer scribbling after every call) replayed against the three real providers and a sorted-map model; non-trivial = the history contained at least one iterator and one batch commit and >= 8 operations; distinct = distinct hash of (operation sequence incl. arguments)",
-		Real: []string{"internal/database/provider/memory", "internal/database/provider/pebble (real Pebble engine on its in-memory vfs)", "internal/database/provider/redis (real go-redis client)"},
-		Stub: []string{"Redis server = alicebob/miniredis on a loopback socket (the repo's own test dependency)", "Pebble file system = vfs.NewMem"},
+		Rule:     "one evaluation = one tape-generated operation history (puts, deletes, gets, batches committed/discarded/abandoned, iterators with prefix/start pairs, caller-buffer scribbling after every call) replayed against the three real providers and a sorted-map model; non-trivial = the history contained at least one iterator and one batch commit and >= 8 operations; distinct = distinct hash of (operation sequence incl. arguments)",
+		Real:     []string{"internal/database/provider/memory", "internal/database/provider/pebble (real Pebble engine on its in-memory vfs)", "internal/database/provider/redis (real go-redis client)"},
+		Stub:     []string{"Redis server = alicebob/miniredis on a loopback socket (the repo's own test dependency)", "Pebble file system = vfs.NewMem"},
 		Assumptions: []string{"sequential histories only: Pebble's and go-redis' internal goroutines are outside the simulator, so no concurrent arm and no I/O-error injection (the property promises nothing under I/O errors)",
 			"miniredis returns SCAN results sorted, so an unsorted real Redis reply cannot be observed here"},
-		LevelText: "seeded exploration of operation histories (<= 40 operations, keys over a small alphabet with glob metacharacters, empty keys/values) on the three real providers against a sorted-map reference model, with every argument buffer overwritten after each call and returned slices either scribbled or held and re-checked at the end; evidence, not proof",
-		LevelNote: "Redis server is the miniredis stand-in (keys restricted to bytes it can translate; backslash/0x80/0xff only in the memory+Pebble arm), Pebble runs on MemFS; sequential histories only, no I/O-error injection",
-		Technique: "deterministic simulation: seeded operation/fault histories vs reference model (differential over 3 providers), tape shrinking + fresh-process replay",
-		DesignRef: "DESIGN.md §4 H5, §5 C27",
+		LevelText:    "seeded exploration of operation histories (<= 40 operations, keys over a small alphabet with glob metacharacters, empty keys/values) on the three real providers against a sorted-map reference model, with every argument buffer overwritten after each call and returned slices either scribbled or held and re-checked at the end; evidence, not proof",
+		LevelNote:    "Redis server is the miniredis stand-in (keys restricted to bytes it can translate; backslash/0x80/0xff only in the memory+Pebble arm), Pebble runs on MemFS; sequential histories only, no I/O-error injection",
+		Technique:    "deterministic simulation: seeded operation/fault histories vs reference model (differential over 3 providers), tape shrinking + fresh-process replay",
+		DesignRef:    "DESIGN.md §4 H5, §5 C27",
 		ExpectProbes: []string{"probe:iter_start_not_prefix", "probe:batch_commit", "probe:batch_discard", "probe:glob_meta_key", "probe:empty_key", "probe:empty_value", "fault:scribble_args", "fault:scribble_result"},
 	},
 }
 
 // makeOverlay writes instrumented files into workDir and returns the overlay Replace map.
-func makeOverlay(h *Harness, workDir string) (map[string]string, string, error) {
+func makeOverlay(h *Harness, workDir string, env []string) (map[string]string, string, error) {
 	ov := map[string]string{}
 	ov[filepath.Join(repoDir, "pkg/Rust-VRF/vrf-func-ffi/src/vrf.go")] = filepath.Join(verifDir, "overlay/vrf/vrf.go")
 	simFiles, err := filepath.Glob(filepath.Join(verifDir, "sim", "*.go"))
@@ -105,13 +135,24 @@ func makeOverlay(h *Harness, workDir string) (map[string]string, string, error) 
 		}
 		ov[filepath.Join(repoDir, dst)] = p
 	}
-	for _, is := range h.Instrument {
-		out := filepath.Join(workDir, "instr", strings.ReplaceAll(is.File, "/", "__"))
-		os.MkdirAll(filepath.Dir(out), 0o755)
-		if err := instrumentFile(filepath.Join(repoDir, is.File), out, is); err != nil {
-			return nil, "", fmt.Errorf("instrument %s: %w", is.File, err)
+	simrtFiles, _ := filepath.Glob(filepath.Join(verifDir, "simrt", "*.go"))
+	for _, f := range simrtFiles {
+		ov[filepath.Join(repoDir, zz+"simrt", filepath.Base(f))] = f
+	}
+	if len(h.Instrument) > 0 {
+		// type-check against the overlay built so far (VRF stand-in etc.), then add the instrumented copies
+		base := filepath.Join(workDir, "overlay-base.json")
+		b, _ := json.Marshal(map[string]any{"Replace": ov})
+		if err := os.WriteFile(base, b, 0o644); err != nil {
+			return nil, "", err
 		}
-		ov[filepath.Join(repoDir, is.File)] = out
+		gen, err := instrumentAll(h, workDir, base, env)
+		if err != nil {
+			return nil, "", fmt.Errorf("instrument: %w", err)
+		}
+		for k, v := range gen {
+			ov[k] = v
+		}
 	}
 	return ov, treeHash(), nil
 }
